@@ -15,6 +15,8 @@
 package crdt
 
 import (
+	"io"
+	"math"
 	"time"
 
 	"github.com/kelindar/binary"
@@ -113,4 +115,19 @@ type clock func() int64
 // Now gets the current time in Unix nanoseconds
 var Now clock = func() int64 {
 	return time.Now().UnixNano()
+}
+
+// readSlice reads a length-prefixed slice without copying. A length that no payload
+// could hold is refused here: the bounds check of the decoder overflows for lengths
+// close to 2^63 and above and would slice out of range.
+func readSlice(d *binary.Decoder) ([]byte, error) {
+	l, err := d.ReadUvarint()
+	if err != nil {
+		return nil, err
+	}
+
+	if l > math.MaxInt32 {
+		return nil, io.ErrUnexpectedEOF
+	}
+	return d.Slice(int(l))
 }
